@@ -2,8 +2,8 @@
 // the matching references.
 //
 // The real Browse service (handler called in process, panics recovered; a
-// sample also through a real client against a server in a CHILD process, where
-// the known crash is reproduced) is compared with the Lean model on the
+// sample also through a real client against a server in a CHILD process, so
+// that a request that kills the server is observed, not suffered) is compared with the Lean model on the
 // reference lists dumped from the live address space, and — independently —
 // with an oracle computed in Go from that dump: direction, reference type equal
 // or (only with IncludeSubtypes) in the transitive HasSubtype closure, class of
@@ -32,11 +32,10 @@ import (
 	"verifharness/internal/h"
 )
 
-const (
-	sigSub   = "C33.subtypes-match-when-excluded"
-	sigPanic = "C33.browse-panics-hassubtype-deletion"
-	sigStale = "C33.nodeclass-mask-uses-stale-class"
-)
+// The two defects of suitableRefType (subtypes matched although excluded; the
+// deletion loop that panicked) are repaired: a panic or an extra reference is an
+// unclassified oracle failure now.
+const sigStale = "C33.nodeclass-mask-uses-stale-class"
 
 func key(n *ua.NodeID) (uint64, bool) {
 	switch n.Type() {
@@ -441,11 +440,7 @@ func (e *env) one(c bcase) string {
 	want := e.expected(c)
 	if impl == "panic" {
 		e.r.Hit("result:panic")
-		sig := ""
-		if !c.sub && c.rt != 0 && e.w.closure[c.rt][id.HasSubtype] {
-			sig = sigPanic
-		}
-		e.fail(c, sig, fmt.Sprintf("Browse panicked; the specification selects %d references", len(want)))
+		e.fail(c, "", fmt.Sprintf("Browse panicked; the specification selects %d references", len(want)))
 		return impl
 	}
 	if !strings.HasPrefix(impl, "ok") {
@@ -461,25 +456,18 @@ func (e *env) one(c bcase) string {
 	gm, wm := multiset(got), multiset(want)
 	// classify every difference
 	stale := map[string]bool{}
-	subOf := map[string]bool{}
 	for _, r := range e.w.refs[c.node] {
 		if r.stored != r.actual && c.mask != 0 {
 			stale[r.tok()] = true
-		}
-		if !c.sub && c.rt != 0 && e.w.closure[c.rt][r.typ] {
-			subOf[r.tok()] = true
 		}
 	}
 	sigs := map[string]bool{}
 	var unexplained []string
 	for t, n := range gm {
 		if n > wm[t] { // returned but not selected by the specification
-			switch {
-			case subOf[t]:
-				sigs[sigSub] = true
-			case stale[t]:
+			if stale[t] {
 				sigs[sigStale] = true
-			default:
+			} else {
 				unexplained = append(unexplained, "extra "+t)
 			}
 		}
@@ -607,19 +595,7 @@ func main() {
 				// oracle on the type test alone
 				want := t1 == 0 || t1 == t2 || (sub && w.closure[t1][t2])
 				if (impl == "yes") != want || impl == "panic" {
-					sig := ""
-					switch {
-					case impl == "panic" && !sub && w.closure[t1][id.HasSubtype]:
-						sig = sigPanic
-					case impl == "yes" && !sub && w.closure[t1][t2]:
-						sig = sigSub
-					}
-					if sig == "" || known["srt"+sig] < 3 {
-						known["srt"+sig]++
-						r.Fail(line, sig, fmt.Sprintf("suitableRefType answered %s, the specification says %v", impl, want))
-					} else {
-						r.Hit("oracle-fail:" + sig)
-					}
+					r.Fail(line, "", fmt.Sprintf("suitableRefType answered %s, the specification says %v", impl, want))
 				}
 			}
 		}
@@ -674,46 +650,43 @@ func main() {
 		}
 	}
 
-	// witnesses of the listed findings (fixed cases, re-confirmed on every run)
-	if x := e.w.browseInProc(bcase{85, 0, 33, false, 0}); x == "panic" {
-		detail := "in process: Browse(ObjectsFolder, Forward, HierarchicalReferences, IncludeSubtypes=false) panics"
-		// (3) the same over TCP in a child process: the server dies
-		if ch, err := startChild(); err == nil {
-			n := 0
-			for _, c := range cases {
-				if results[c.String()] == "panic" || n >= o.N(150, 1500) || (n > 0 && e.rnd.Intn(3) != 0) {
-					continue
-				}
-				n++
-				got := ch.ask(c.String())
-				r.TracesValidated++
-				r.Hit("wire:" + strings.Fields(got)[0])
-				if got != results[c.String()] {
-					r.Disagree("wire browse "+c.String(), results[c.String()], got)
-				}
+	// (3) a sample over TCP: a real client against a server in a child process (a
+	// request that crashes the server shows up as "died"); the former crash
+	// witness Browse(ObjectsFolder, Forward, HierarchicalReferences, no subtypes)
+	// is part of the sample
+	if ch, err := startChild(); err == nil {
+		n := 0
+		wcases := append([]bcase{{85, 0, 33, false, 0}, {85, 2, 31, false, 0}, {2253, 0, 34, false, 0}, {2253, 0, 44, false, 0}}, cases...)
+		for i, c := range wcases {
+			if n >= o.N(150, 1500) || (i > 3 && e.rnd.Intn(3) != 0) {
+				continue
 			}
-			got := ch.ask(bcase{85, 0, 33, false, 0}.String())
-			stderr := ch.stop()
-			if (got == "died" || strings.HasPrefix(got, "err(")) && strings.Contains(stderr, "slice bounds out of range") {
-				detail += "; over TCP the same request kills the server process (" + firstLine(stderr, "panic:") + ")"
-				r.Hit("wire:server-killed")
-			} else {
-				r.Notes = append(r.Notes, "child after the crash request: "+got+" stderr: "+firstLine(stderr, "panic:"))
+			want, ok := results[c.String()]
+			if !ok {
+				want = e.w.browseInProc(c)
 			}
-		} else {
-			r.InfraError = "child: " + err.Error()
+			n++
+			got := ch.ask(c.String())
+			r.TracesValidated++
+			r.Hit("wire:" + strings.Fields(got)[0])
+			if got != want {
+				r.Disagree("wire browse "+c.String(), want, got)
+			}
+			if got == "died" || got == "timeout" {
+				r.Fail("browse "+c.String(), "", "the request killed the server process: "+firstLine(ch.stderr.String(), "panic:"))
+				break
+			}
 		}
-		r.Confirm(sigPanic, detail)
-	}
-	if x := e.w.browseInProc(bcase{2253, 0, 44, false, 0}); strings.HasPrefix(x, "ok ") && len(e.expected(bcase{2253, 0, 44, false, 0})) == 0 {
-		r.Confirm(sigSub, fmt.Sprintf("Browse(Server, Forward, Aggregates, IncludeSubtypes=false) returns %d HasComponent/HasProperty references, the specification selects none", len(strings.Fields(x))-1))
+		ch.stop()
+	} else {
+		r.InfraError = "child: " + err.Error()
 	}
 	c := bcase{1<<32 | 5000, 0, 0, true, 1}
 	if x := e.w.browseInProc(c); !strings.Contains(x, fmt.Sprintf(":%d", uint64(1<<32|5010))) && strings.Contains(strings.Join(e.expected(c), " "), fmt.Sprintf(":%d", uint64(1<<32|5010))) {
 		r.Confirm(sigStale, "folder ns=1;i=5000 references ns=1;i=5010 recorded as Variable; the node's class is Object now; Browse with NodeClassMask=Object omits it (also in the standard address space: i=2253 -> i=2255 recorded Variable, node says Object)")
 	}
 	for _, b := range []string{"dir:0", "dir:1", "dir:2", "sub:true", "sub:false", "reftype:none", "reftype:with-subtypes", "reftype:leaf-or-unknown",
-		"mask:0", "mask:set", "result:panic", "result:empty", "result:refs", "srt:yes", "srt:no", "srt:panic", "wire:ok", "wire:server-killed"} {
+		"mask:0", "mask:set", "result:empty", "result:refs", "srt:yes", "srt:no", "wire:ok"} {
 		if r.Distribution[b] == 0 {
 			r.Unreached = append(r.Unreached, b)
 		}
